@@ -19,6 +19,55 @@ def c12_sig(line):
     return f[1] if len(f) > 1 and f[0] == "VIOL" else ""
 
 
+def smoke386(tier):
+    """The same harness built for a 32-bit target (GOARCH=386, no race detector there) and run for about a second:
+    alignment-dependent crashes of 64-bit atomics and anything else that only breaks on 32-bit shows up as a
+    panic / crash VIOL line.  Not an obligation; its VIOL lines are violations with the line as replay."""
+    import hashlib, os, shutil
+    import vcheck as V
+    cov = {}
+    tag = "" if V.REPO == "/repo" else "_" + hashlib.sha1(V.REPO.encode()).hexdigest()[:8]
+    exe = os.path.join(V.BUILD, "h_c12_386" + tag)
+    hdir = os.path.join(V.VERIF, "harness")
+    with V.Lock("go" + tag):
+        modfile = os.path.join(hdir, "go.mod")
+        if tag:
+            md = os.path.join(V.BUILD, "gomod" + tag)
+            os.makedirs(md, exist_ok=True)
+            modfile = os.path.join(md, "go.mod")
+            open(modfile, "w").write(open(os.path.join(hdir, "go.mod")).read().replace("=> /repo", "=> " + V.REPO))
+        try:
+            shutil.copyfile(os.path.join(V.REPO, "go.sum"), modfile[:-4] + ".sum")
+        except OSError:
+            pass
+        env = dict(V.GOENV, GOARCH="386", CGO_ENABLED="0")
+        rc, out, dt = V.run(["go", "build", "-modfile=" + modfile, "-tags", "verif", "-o", exe, "./cmd/c12"], cwd=hdir, env=env, timeout=900)
+    if rc != 0:
+        cov["smoke_386"] = {"built": False, "note": "GOARCH=386 build not possible here: " + out.strip()[-300:]}
+        return 0, 0, [], cov
+    d = os.path.join(V.BUILD, "smoke386-%d" % os.getpid())
+    shutil.rmtree(d, ignore_errors=True)
+    problems = []
+    try:
+        rc, out, dt = V.run([exe, "-out", d, "-tier", "quick", "-seed", "1"], env=dict(os.environ, VERIF_C12_SMOKE="1"), timeout=600)
+        viol = []
+        try:
+            viol = [l.strip() for l in open(os.path.join(d, "cases.txt"), errors="replace") if l.startswith("VIOL ")]
+        except OSError:
+            pass
+        cov["smoke_386"] = {"built": True, "rc": rc, "wall_s": round(dt, 1), "viol_lines": len(viol)}
+        if rc != 0 and not viol:
+            if "exec format" in out or "cannot execute" in out:
+                cov["smoke_386"]["note"] = "32-bit binaries cannot be executed on this host"
+            else:
+                problems.append(("tie", "GOARCH=386 smoke pass of the C12 harness failed: " + out.strip()[-300:], {"broken": "386 smoke", "output_tail": out[-2000:]}))
+        for l in viol[:5]:
+            problems.append(("specfail", "on GOARCH=386: " + l[:300], {"case": "GOARCH=386 " + l, "sig": "386-" + c12_sig(l)}))
+    finally:
+        shutil.rmtree(d, ignore_errors=True)
+    return 0, 0, problems, cov
+
+
 ID = "C12"
 CFG = dict(
     propfile="Properties/C12.v",
@@ -28,10 +77,10 @@ CFG = dict(
     race=True,
     casesv=c12_casesv,
     coq_sample={"quick": 5, "thorough": 20},
-    static=[facts.C12_FACTS],
+    static=[facts.C12_FACTS, smoke386],
     sig=c12_sig,
     harness_timeout={"quick": 300, "thorough": 3600},
-    rule=("one case = one round on a fresh IPv4Filter (quick: >= 220 rounds in ~9 s of churn, thorough: >= 3000 in ~2 min): "
+    rule=("one case = one round on a fresh IPv4Filter (quick: >= 220 churn rounds + 2200 switch rounds, thorough: >= 3000 + 30000): "
           "pre-filled sequentially to 232..256 list slots (10%: exactly 256, 5%: 150..249) so that the 257th Add - the migration - happens "
           "once per round under contention; 4-16 writer goroutines with their own ranges (add / remove / re-add / duplicates / absent removals, host bits set, a few "
           "invalid arguments), in 30% of the rounds one more writer toggling 0.0.0.0/0, 4-8 reader goroutines probing stable ranges "
@@ -51,6 +100,9 @@ CFG = dict(
                  "(justified by the lockset obligation on the current source, not by the interleaving model itself)",
                  "sequentially consistent atomics and mutexes (Go memory model for race-free programs)",
                  "C12_quiescent assumes threads update disjoint ranges (as the property says: writers own their ranges); C12_linearisable holds without it",
+                 "state carried across update counts: only exactly 2^16 and 2^24 updates between two lookups are exercised (thorough tier); counter wrap-arounds "
+                 "beyond 2^24 (2^32 in particular, ~20 minutes of pure updates) are not exercised",
+                 "32-bit targets: only a short GOARCH=386 pass without race detector; other 32-bit architectures (arm, mips) not run",
                  "goroutine fairness / starvation of writers by readers is the runtime's (sync.RWMutex) and not modelled; C12_no_stuck only says the model never deadlocks"],
 )
 CFG["manifest"] = dict(
